@@ -44,8 +44,8 @@ func prefixIs(d []byte, a, b, c, e byte) bool {
 // allowed is the property's predicate for a generic signature under domain d.
 func allowed(d []byte, ipListed bool) bool {
 	return vsym.And(
-		vsym.Not(prefixIs(d, 1, 0, 0, 0)), // beacon attester
-		vsym.Not(prefixIs(d, 0, 0, 0, 0)), // beacon proposer
+		vsym.Not(prefixIs(d, 1, 0, 0, 0)),               // beacon attester
+		vsym.Not(prefixIs(d, 0, 0, 0, 0)),               // beacon proposer
 		vsym.Implies(prefixIs(d, 4, 0, 0, 0), ipListed), // voluntary exit
 	)
 }
